@@ -830,13 +830,10 @@ class IRGenerator:
             if not is_composite_type(data_type):
                 return set()
 
-            # if we have already analyzed data type, just return result
-            if data_type.recursive_custom_annotations is not None:
-                return data_type.recursive_custom_annotations
-
-            # handle cycles safely (annotations will be found first time at top level)
+            # if we have already analyzed data type in this pass (or are in the
+            # middle of it, for a cycle), return what is known so far
             if data_type in data_types_seen:
-                return set()
+                return data_type.recursive_custom_annotations or set()
             data_types_seen.add(data_type)
 
             annotations = set()
@@ -867,27 +864,39 @@ class IRGenerator:
             data_type.recursive_custom_annotations = annotations
             return annotations
 
-        for namespace in self.api.namespaces.values():
-            namespace_annotations = set()
-            for data_type in namespace.data_types:
-                namespace_annotations.update(recurse(data_type))
+        # Types can refer to each other in cycles, so one traversal leaves the
+        # types met on a back edge with a partial answer that depends on the
+        # order of traversal. Repeat until nothing is added.
+        total = -1
+        while True:
+            data_types_seen.clear()
+            for namespace in self.api.namespaces.values():
+                namespace_annotations = set()
+                for data_type in namespace.data_types:
+                    namespace_annotations.update(recurse(data_type))
 
-            for alias in namespace.aliases:
-                namespace_annotations.update(recurse(alias))
+                for alias in namespace.aliases:
+                    namespace_annotations.update(recurse(alias))
 
-            for route in namespace.routes:
-                namespace_annotations.update(recurse(route.arg_data_type))
-                namespace_annotations.update(recurse(route.result_data_type))
-                namespace_annotations.update(recurse(route.error_data_type))
+                for route in namespace.routes:
+                    namespace_annotations.update(recurse(route.arg_data_type))
+                    namespace_annotations.update(recurse(route.result_data_type))
+                    namespace_annotations.update(recurse(route.error_data_type))
 
-            # record annotation types as dependencies of the namespace. this allows for
-            # an optimization when processing custom annotations to ignore annotation
-            # types that are not applied to the data type, rather than recursing into it
-            for _, annotation in namespace_annotations:
-                if annotation.annotation_type.namespace.name != namespace.name:
-                    namespace.add_imported_namespace(
-                        annotation.annotation_type.namespace,
-                        imported_annotation_type=True)
+                # record annotation types as dependencies of the namespace. this allows for
+                # an optimization when processing custom annotations to ignore annotation
+                # types that are not applied to the data type, rather than recursing into it
+                for _, annotation in namespace_annotations:
+                    if annotation.annotation_type.namespace.name != namespace.name:
+                        namespace.add_imported_namespace(
+                            annotation.annotation_type.namespace,
+                            imported_annotation_type=True)
+
+            new_total = sum(len(data_type.recursive_custom_annotations)
+                            for data_type in data_types_seen)
+            if new_total == total:
+                break
+            total = new_total
 
     def _populate_field_defaults(self):
         """
